@@ -79,8 +79,8 @@ def check(prog: Program, run: Run) -> None:
     _typed_names(tm, ty, run)
     _nothing_dropped(prog, tm, pt, ty, run)
     _escaping(prog, tm, run)
-    _docref(tm, run)
-    _docref_fragment(prog, tm, run)
+    _docref(tm, ty, run)
+    _docref_fragment(prog, tm, ty, run)
     _guard_body(tm, run)
     _foreign_value_guards(tm, pt, run)
     _elif_chains(tm, pt, run)
@@ -485,7 +485,7 @@ def _escaping(prog: Program, tm: TemplateModel, run: Run) -> None:
 
 
 # ----------------------------------------------------------------------- R3
-def _docref(tm: TemplateModel, run: Run) -> None:
+def _docref(tm: TemplateModel, ty: TemplateTyper, run: Run) -> None:
     R = "C11.R3"
     for m in tm.all_macros():
         lit = m.literal
@@ -503,7 +503,13 @@ def _docref(tm: TemplateModel, run: Run) -> None:
                 if has:
                     run.ok(R, C, f"<{o.tag} ID-REF=… DOCREF=…>", where)
                 else:
-                    run.violation(R, C, f"docref-dropped-{o.tag}:{o.text}",
+                    # the site is named by where the reference comes from in terms of classes
+                    # and fields, not by the names the template happens to use
+                    e_ = o.expr
+                    while isinstance(e_, nodes.Filter):
+                        e_ = e_.node
+                    org = ty.origin.get(id(e_.node)) if isinstance(e_, nodes.Getattr) else None
+                    run.violation(R, C, f"docref-dropped-{o.tag}:{org or o.text}",
                                   f"`<{o.tag} ID-REF=\"{{{{ {o.text} }}}}\"/>` is written without "
                                   "DOCREF/DOCTYPE although the parser stores the referenced "
                                   "document (ref_docs): a reference into another document "
@@ -512,13 +518,13 @@ def _docref(tm: TemplateModel, run: Run) -> None:
 
 
 DOCREF_ANY_FRAGMENT = {
-    ("macros/printProtocol.xml.jinja2", "dlr.comparam_spec_ref.ref_docs"):
+    ("macros/printProtocol.xml.jinja2", "ProtocolRaw.comparam_spec_ref"):
         "a COMPARAM-SPEC lives in its own document category, so a loadable reference to it always "
         "carries an explicit DOCREF and ref_docs has exactly one element",
 }
 
 
-def _docref_fragment(prog: Program, tm: TemplateModel, run: Run) -> None:
+def _docref_fragment(prog: Program, tm: TemplateModel, ty: TemplateTyper, run: Run) -> None:
     """The document named by DOCREF is the FIRST fragment of ref_docs (for a reference without
     explicit document the later fragments name the layer that contains the reference, not the
     target's document)."""
@@ -533,9 +539,9 @@ def _docref_fragment(prog: Program, tm: TemplateModel, run: Run) -> None:
                 where = f"odxtools/templates/{t.rel}:{g.lineno}"
                 if isinstance(g.arg, nodes.Const) and g.arg.value == 0:
                     run.ok(R, t.rel, "DOCREF is taken from ref_docs[0]", where)
-                elif (t.rel, _expr_text(g.node)) in DOCREF_ANY_FRAGMENT:
+                elif (t.rel, ty.origin.get(id(g.node.node), "?")) in DOCREF_ANY_FRAGMENT:
                     run.ok(R, t.rel, f"{_expr_text(g)}: exempt, "
-                           f"{DOCREF_ANY_FRAGMENT[(t.rel, _expr_text(g.node))]}", where)
+                           f"{DOCREF_ANY_FRAGMENT[(t.rel, ty.origin[id(g.node.node)])]}", where)
                 else:
                     run.violation(R, t.rel, f"docref-fragment:{_expr_text(g)}",
                                   f"`{_expr_text(g)}`: DOCREF/DOCTYPE must name the first "
